@@ -1,5 +1,6 @@
 """C02 - image manifests survive a write/read cycle (persistence invariant of M-IM)."""
 from .. import gen_im
+from ..kits import KITS
 from ..pools import pick
 
 ID = "C02"
@@ -21,4 +22,10 @@ def generate(rng, tier, idx):
                 ops.append(gen_im.valid_mutation(K, rng))
     ops.append({"op": "dump", "path": path})
     ops.append({"op": "restart", "path": path, "via": "path"})
+    _machine = "M-IM"
+    if rng.random() < 0.25:
+        # a bystander object with other content lives next to the main one
+        b_build, b_final = KITS[_machine].bystander(rng, tier)
+        cut = rng.randint(1, len(ops))
+        ops = ops[:cut] + b_build + ops[cut:] + b_final + [o for o in ops[-2:] if o["op"] in ("dump", "restart")]
     return {"machine": "M-IM", "cfg": {"simset": pick(rng, ["insertion", "shuffle", "reverse", "sorted"])}, "ops": ops}
